@@ -65,3 +65,22 @@ package sortio
 //@   loop 1 invariant i3: forall(k, 0, len(m.heap.Buffers), mbufDyn(m.heap.Buffers[k]))
 //@   loop 1 invariant i4: forall(k, 0, len(m.heap.Buffers), exists(j, 0, old(len(m.heap.Buffers)), m.heap.Buffers[k] == old(m.heap.Buffers[j])))
 //@   loop 1 invariant forall(c, 0, len(out.data), forall(k, implies(k < out.off || k >= out.off + out.len, ColMem[out.data[c].ptr][k] == old(ColMem[out.data[c].ptr][k]))))
+
+//@ extern func sortio.NewMergeReader (ctx, typ, readers) (r, err)
+//@   may_panic
+//@   modifies unknown
+//@   preserves spillCleanups, spillCalls, sortCalls, lastSortedOff, lastSortedLen, lastSpilledOff, lastSpilledLen, nReadFull, lastReadFullErr
+
+// SortReader: input errors are reported (never turned into end-of-stream), every run is sorted before it is
+// spilled, arithmetic on the measured run size is safe, and the spill directory is cleaned up on every exit.
+//@ func sortio.SortReader (ctx, spillTarget, typ, r) (res, err)
+//@   requires r != nil && numCanaryRows != nil && *numCanaryRows >= 1 && sliceio.SpillBatchSize >= 1 && typeNumOut(typ) >= 1
+//@   may_panic
+//@   ensures  spill-files-do-not-outlive-creation: spillCleanups <= old(spillCleanups) + 1 && implies(spillCalls > old(spillCalls) || sortCalls > old(sortCalls), spillCleanups == old(spillCleanups) + 1)
+//@   panic_ensures cleanup-on-panic: implies(spillCalls > old(spillCalls) || sortCalls > old(sortCalls), spillCleanups == old(spillCleanups) + 1)
+//@   ensures  read-errors-are-reported: implies(nReadFull > old(nReadFull) && lastReadFullErr != nil && lastReadFullErr != sliceio.EOF, err == lastReadFullErr)
+//@   ensures  no-reader-on-read-error: implies(nReadFull > old(nReadFull) && lastReadFullErr != nil && lastReadFullErr != sliceio.EOF, res == nil)
+//@   ensures  every-run-sorted-before-spilled: spillCalls - old(spillCalls) <= sortCalls - old(sortCalls) && implies(spillCalls > old(spillCalls), lastSpilledOff == lastSortedOff && lastSpilledLen == lastSortedLen)
+//@   modifies unknown
+//@   loop 1 invariant spillCleanups == old(spillCleanups) && spillCalls - old(spillCalls) == sortCalls - old(sortCalls) && implies(spillCalls > old(spillCalls), lastSpilledOff == lastSortedOff && lastSpilledLen == lastSortedLen) && f.len >= 1 && wf(f) && distinctCols(f) && len(f.data) >= 1 && r != nil && sliceio.SpillBatchSize >= 1
+//@   loop 1 invariant implies(nReadFull > old(nReadFull), lastReadFullErr == nil)
